@@ -103,7 +103,7 @@ class C12(Prop):
         "loader_nload_largest_prefix", "loader_chunks_partition", "dsq_chunks_are_the_database", "pipe_order", "pipe_eof_after_all", "pipe_lanes", "pipe_no_deadlock", "pipe_no_lost_wakeup", "pipe_eof_delivered", "pipe_buffers",
         "dsq_open_written", "dsq_bytes_round_trip", "dsq_bytes_round_trip_defaults", "dsq_open_corrupt_header", "dsq_stub_tag",
         "dsq_threaded_read_is_database", "open_rejects", "read_written_database", "chunk_ownership_exclusive", "pipe_lock_discipline",
-        "codec_chunk_layout", "codec_unpack_smem", "codec_pack_unpack_smem", "dsq_chunks_unpack_in_place", "codec_pack_smem")]
+        "codec_chunk_layout", "codec_unpack_smem", "codec_pack_unpack_smem", "dsq_chunks_unpack_in_place", "codec_pack_smem", "pipe_wait_conditions_guarded", "pipe_lane_local", "pipe_recycling_nchunk_local", "pipe_half_lane_local")]
     claimed = True
     level_text = ("Theorems for every schedule of one reader and any number of workers (one atomic step per mutex-protected region, spurious wake-ups allowed): "
                   "conservation and exclusivity of blocks, FIFO on both queues (history variables), counters in range and pendingWorkers = number of sleepers, "
@@ -112,15 +112,17 @@ class C12(Prop):
                   "the buffer, nothing overwritten before it is read); the four files of esl_dsqdata_Write as byte strings, Open's validation incl. every refusal, the "
                   "loader's freads and chunking; read_written_database: Write -> files -> Open -> threaded Read returns exactly the database, in order, chunk by "
                   "chunk, then EOF, for every database / chunk limits / unpacker and consumer count / schedule; pipeline order, EOF, no deadlock, no lost wake-up, "
-                  "buffer conservation; chunk_ownership_exclusive (every chunk buffer has exactly one owner) and pipe_lock_discipline (shared fields change only "
-                  "under their mutex, private variables only in their thread). esl_threads start barrier. Tie: exact differential run (codec, in-place buffers, file "
+                  "buffer conservation; chunk_ownership_exclusive (every chunk buffer has exactly one owner), pipe_lock_discipline (shared fields change only "
+                  "under their mutex, private variables only in their thread) and the locality theorems (a step reads and writes no shared field whose mutex it does "
+                  "not hold). esl_threads start barrier. Tie: exact differential run (codec, in-place buffers, file "
                   "bytes, Open on corrupted files, sequential queue ops) and validation of logged multi-threaded traces against the models, incl. the mutexes held "
                   "in every region and the owner of every chunk touched outside a mutex.")
     level_note = ("Trusted: Lean kernel + propext/Classical.choice/Quot.sound; fidelity of the hand models is checked by differential run / trace validation, not proved; "
                   "pthread semantics (mutual exclusion, condition variables with spurious wake-ups) are modelled, not verified. Data-race freedom in the pthread memory "
-                  "model is NOT a theorem: what is proved is its interleaving-model counterpart - ownership exclusivity and the write-frame lock discipline; that a step "
-                  "READS only fields whose mutex it holds is by construction of the model's steps (not a separate theorem) and is checked on observed traces (held-mutex "
-                  "sets, snapshots under the mutex equal the model state, digests of parked chunks unchanged). Caller contract of the queue stated as `Admissible`. "
+                  "model is NOT a theorem: what is proved is its interleaving-model counterpart - ownership exclusivity, the write frame (a step changes a shared field only under its mutex) and the "
+                  "locality theorems (a step commutes with arbitrary changes of every shared field whose mutex it does not hold: other lanes, the other half of its own "
+                  "lane, the recycling stack, nchunk - i.e. it does not read them either); on the code this is checked on observed traces (held-mutex sets, snapshots "
+                  "under the mutex equal the model state, digests of parked chunks unchanged). Caller contract of the queue stated as `Admissible`. "
                   "Not covered: the esl_workqueue_queuelock_* variants (unfinished code), fatal-exception paths of the loader (short reads).")
     diverge_is_violation = True
     fault_is_output = True      # a sanitizer abort is an output line; it must coincide with the model's `fault`
@@ -155,20 +157,31 @@ class C12(Prop):
         import os
         h = open(os.path.join(ctx.src, "esl_dsqdata.h")).read()
         c = open(os.path.join(ctx.src, "esl_dsqdata.c")).read()
+        def value(txt, what):
+            txt = re.sub(r"(?<=[0-9a-fA-F])[uUlL]+\b", "", txt.split("//")[0].split("/*")[0]).strip()
+            if not txt or not re.fullmatch(r"[0-9a-fA-FxX\s()*+\-<]+", txt): raise RuntimeError("cannot read the value of %s: %r" % (what, txt))
+            return int(eval(txt, {"__builtins__": {}}, {}))
         def define(name):
-            m = re.search(r"^\s*#\s*define\s+%s\s+(\d+)" % name, h, re.M)
-            if not m: raise RuntimeError("esl_dsqdata.h: cannot find #define %s <integer>" % name)
-            return int(m.group(1))
+            m = re.search(r"^[ \t]*#[ \t]*define[ \t]+%s[ \t]+(.+)$" % name, h, re.M)
+            if not m: raise RuntimeError("esl_dsqdata.h: cannot find #define %s" % name)
+            return value(m.group(1), name)
         def static(name):
-            m = re.search(r"%s\s*=\s*(0x[0-9a-fA-F]+|\d+)\s*;" % name, c)
-            if not m: raise RuntimeError("esl_dsqdata.c: cannot find %s = <integer>;" % name)
-            return int(m.group(1), 0)
+            m = re.search(r"%s\s*=\s*([^;]+);" % name, c)
+            if not m: raise RuntimeError("esl_dsqdata.c: cannot find %s = <value>;" % name)
+            return value(m.group(1), name)
         return {"magic": static("eslDSQDATA_MAGIC_V1"), "magicSwap": static("eslDSQDATA_MAGIC_V1SWAP"),
                 "chunkMaxseq": define("eslDSQDATA_CHUNK_MAXSEQ"), "chunkMaxpacket": define("eslDSQDATA_CHUNK_MAXPACKET"),
                 "unpackers": define("eslDSQDATA_UNPACKERS"), "umax": define("eslDSQDATA_UMAX")}
 
     def generated(self, ctx):
-        k = self._consts = self.dsq_consts(ctx)
+        try:
+            k = self._consts = self.dsq_consts(ctx)
+        except (RuntimeError, OSError, SyntaxError, ValueError, TypeError, NameError) as e:
+            # constants written in a form this reader does not understand: keep the checked-in file (a real drift between model and code
+            # still shows in the byte-for-byte / chunking comparison); this must not by itself fail the check
+            print("[C12] constants of esl_dsqdata.[ch] not regenerated: %s" % e)
+            self._consts = None
+            return {}
         doc = {"magic": "eslDSQDATA_MAGIC_V1", "magicSwap": "eslDSQDATA_MAGIC_V1SWAP", "chunkMaxseq": "eslDSQDATA_CHUNK_MAXSEQ",
                "chunkMaxpacket": "eslDSQDATA_CHUNK_MAXPACKET", "unpackers": "eslDSQDATA_UNPACKERS", "umax": "eslDSQDATA_UMAX"}
         fmt = lambda n, v: ("0x%08x" % v) if n.startswith("magic") else str(v)
